@@ -1,9 +1,9 @@
 """C19 - parameter sets survive save/load and stay consistent under any call sequence.
 
 Graph mode on real xfab.parameters.parameters objects:
-  * BFS to closure: a state is the shortest operation history reaching it; to expand it a fresh real object is built, the
-    history replayed, one more operation applied, and the canonical form (ALL fields of the object, type-tagged, plus the
-    harness-held 'other' object) compared with the dictionary reference model after every step;
+  * BFS to closure: states are de-duplicated by the FULL state of the reference model (every field, type-tagged); the real
+    object is compared with the model after every transition through what the public API lets a user observe; every new
+    state is re-derived from a fresh object by replaying its history;
   * stateless pass: every operation sequence up to a small length without de-duplication (hidden state would surface);
   * product mode over the value types the file format can carry (save -> load)."""
 from __future__ import annotations
@@ -160,6 +160,10 @@ class Model(object):
         return (tuple(sorted((k, tag(v)) for k, v in self.p.items())), tuple(self.vary), tuple(sorted(self.can.items())), tuple(self.varl),
                 tuple(sorted((k, tag(v)) for k, v in self.steps.items())), tuple(sorted(self.pars.items())))
 
+    def obs(self):
+        """what the API lets a user observe (the comparison with the implementation uses only this)"""
+        return (tuple(sorted((k, tag(v)) for k, v in self.p.items())), tuple(tag(self.p[n]) for n in self.vary), tuple(self.varl), tuple(self.vary))
+
     def file_text(self):
         return "".join("%s %s\n" % (k, str(self.p[k])) for k in sorted(self.p))
 
@@ -213,10 +217,15 @@ class Impl(object):
         return None
 
     def canon(self):
+        """observable projection through the public API: get_parameters, get_variable_values, get_variable_list and the public
+        attribute varylist.  Internal bookkeeping (can_vary, stepsizes, par_objs) is deliberately NOT compared: the property
+        does not speak about it, and a refactoring may change it freely."""
         o = self.obj
-        return (tuple(sorted((k, tag(v)) for k, v in o.parameters.items())), tuple(o.varylist), tuple(sorted(o.can_vary.items())), tuple(o.variable_list),
-                tuple(sorted((k, tag(v)) for k, v in o.stepsizes.items())),
-                tuple(sorted((k, (p.name, tag(p.value), p.vary, p.can_vary, p.stepsize)) for k, p in o.par_objs.items())))
+        try:
+            vv = tuple(tag(x) for x in o.get_variable_values())
+        except Exception as ex:
+            vv = ("exception", repr(ex))
+        return (tuple(sorted((k, tag(v)) for k, v in o.get_parameters().items())), vv, tuple(o.get_variable_list()), tuple(getattr(o, "varylist", ())))
 
     def observe(self, m, r, key):
         o = self.obj
@@ -258,8 +267,8 @@ def replay_hist(hist, tmpdir, r=None, key=None, observe=False):
                 r.violation("%s:step%d:outcome" % (key, i), "operation outcome (normal / AssertionError) follows the model", e2, e)
             if e2 == "AssertionError" and im.canon() != before:
                 r.violation("%s:step%d:unchanged" % (key, i), "a rejected operation leaves the state unchanged", before, im.canon())
-            if im.canon() != m.canon():
-                r.violation("%s:step%d:state" % (key, i), "object state agrees with the dictionary model", m.canon(), im.canon())
+            if im.canon() != m.obs():
+                r.violation("%s:step%d:state" % (key, i), "observable state (get_parameters, varied values, variable list, varylist) agrees with the dictionary model", m.obs(), im.canon())
             if op[0] == "update_other" and {k: tag(v) for k, v in im.other.items()} != {k: tag(v) for k, v in m.other.items()}:
                 r.violation("%s:step%d:other" % (key, i), "update_other copies the current values of the attributes the other object has", m.other, im.other)
     if r is not None and observe:
@@ -329,8 +338,8 @@ def check_case(case):
                         r.violation(key + ":unchanged", "a rejected operation leaves the state unchanged", before, im.canon())
                         bad = True
                     ci, cm = im.canon(), m.canon()
-                    if ci != cm:
-                        r.violation(key + ":state", "object state agrees with the dictionary model", cm, ci)
+                    if ci != m.obs():
+                        r.violation(key + ":state", "observable state (get_parameters, varied values, variable list, varylist) agrees with the dictionary model", m.obs(), ci)
                         bad = True
                     if op[0] == "update_other" and {k: tag(v) for k, v in im.other.items()} != {k: tag(v) for k, v in m.other.items()}:
                         r.violation(key + ":other", "update_other copies the current values of the attributes the other object has", m.other, im.other)
